@@ -18,6 +18,16 @@ def gen_cases(rng, tier):
         ops = [dict(op='w', kind=rng.choice([0, 2]), seed=rng.randrange(1, 1000), len=n) for n in lens] + [dict(op='close')]
         cases.append(dict(mode='rt', ops=ops, level=rng.choice([-1, 1, 6]), wc=k % 5, rd=k % 3, reads=[rng.choice([4096, BS, 100000])],
                           delay=0, hbytes=True))
+    # the stream consumed byte by byte up to io.EOF, over [data][empty block][EOF marker] and [data][EOF marker] layouts
+    for k, ops in enumerate(([dict(op='w', kind=2, seed=5, len=rng.randrange(1, 40)), dict(op='f'), dict(op='close')],
+                             [dict(op='w', kind=2, seed=6, len=rng.randrange(1, 40)), dict(op='f'), dict(op='wait'), dict(op='close')],
+                             [dict(op='w', kind=0, seed=7, len=BS), dict(op='close')],
+                             [dict(op='w', kind=2, seed=8, len=9), dict(op='close')],
+                             [dict(op='w', kind=2, seed=9, len=3), dict(op='f'), dict(op='w', kind=2, seed=10, len=4), dict(op='f'), dict(op='close')],
+                             [dict(op='close')])):
+        cases.append(dict(mode='rt', ops=ops, level=rng.choice([-1, 0, 9]), wc=k % 5, rd=(k * 2) % 5, reads=[0], delay=0, hbytes=True))
+        if k != 2:
+            cases.append(dict(mode='rt', ops=ops, level=-1, wc=(k + 1) % 5, rd=k % 5, reads=[rng.choice([1, 2, 3]), 0], delay=0, hbytes=True))
     for i in range(nbig + nsmall):
         big = i < nbig
         ops = wrlib.gen_script(rng, big, nops=(rng.randrange(1, 4) if big else None), after_close=(rng.random() < 0.1))
